@@ -119,6 +119,10 @@ class XPathArray(XPathFunction):
         except IndexError:
             raise self.error('FOAY0001')
 
+    @property
+    def arity(self) -> int:
+        return 1  # an array is a function item of arity 1
+
     def items(self, context: ta.ContextType = None) -> list[ta.ValueType]:
         if self._array is not None:
             return self._array
